@@ -102,7 +102,7 @@ def run(ctx, rep):
                 c = sym(fn, t['op'])
                 if c[0] == 'binop' and c[1] in ('Ge', 'Lt', 'Gt', 'Le') and (strip(c[2])[0] in ('mlocal',) or 'isize' in str(c[2]) or strip(c[2])[0] == 'cast' or True):
                     u = unit_of(c[3]) or resolve_unit(fn, c[3])
-                    if u and strip(c[3]) != ('int', 0) and info['bound'] is None and c[1] in ('Ge', 'Lt'):
+                    if u and strip(c[3]) != ('int', 0) and info['bound'] is None and c[1] in ('Ge', 'Lt', 'Gt', 'Le'):
                         # the bound test compares the (unsigned) index with a count and leads to an IndexError return
                         info['bound'] = u
                         info['bound_op'] = c[1]
@@ -120,7 +120,11 @@ def run(ctx, rep):
         rep.ob(consistent, 'R13.2', name, 'units', 'negative shift counts %s, the bound test counts %s, the access counts %s; all three must be %s'
                % (info['shift'], info['bound'], info['access'], want), fn.loc())
         rep.ob(info.get('shift_guard'), 'R13.2', name, 'shift only when negative', 'the count is added only under `index < 0`', fn.loc())
-        rep.ob(info.get('bound_op') == 'Ge', 'R13.2', name, 'bound operator', 'out of range is `index >= count` (got %s)' % info.get('bound_op'), fn.loc())
+        # the access itself must be dominated by `index < count` (no off-by-one): same discharge as the panic-site census
+        acc_sites = [s_ for s_ in psc.census(ctx) if s_['fn'] == name and s_['kind'] == 'call' and
+                     (psc.is_index_call(s_['what']) or (s_['what'].endswith('::unwrap') and 'nth' in str(sym(fn, s_['term']['args'][0]))))]
+        okb = bool(acc_sites) and all(c05.verdict_for(ctx, s_)[0] for s_ in acc_sites)
+        rep.ob(okb, 'R13.2', name, 'bound test', 'the element access is dominated by `index < count` (out of range is exactly index >= count): %s' % [c05.verdict_for(ctx, s_)[1][:60] for s_ in acc_sites], fn.loc())
     rep.table('index_routines', {k: {x: y for x, y in v_.items() if x != 'fn'} for k, v_ in routines.items()})
 
     # ---- R13.3 ---------------------------------------------------------------------------------
